@@ -192,6 +192,12 @@ def main():
         for cid, fl in sorted(failing.items()):
             c = by_cid[cid]
             print("DEBUG failing", cid, fl, c.get("op"), json.dumps(c.get("meta"), default=str)[:300])
+            if os.environ.get("VERIF_DEBUG") == "2":
+                print("      input:", json.dumps(c.get("input"), default=str)[:1500])
+                print("      impl :", json.dumps(c.get("impl_repr"), default=str)[:600])
+                os.makedirs("/tmp/verif_debug", exist_ok=True)
+                json.dump({"cid": cid, "coq_term": c["term"], "op": c.get("op"), "input": c.get("input")},
+                          open(f"/tmp/verif_debug/{pid}-{cid}.json", "w"), default=str)
     # 3. classify
     cand = []      # B or C false
     corr = []      # only A false
@@ -202,14 +208,14 @@ def main():
         elif not fl[0]:
             corr.append((c, fl))
     # candidates that are not A-consistent also break the correspondence
-    a_broken = [(c, fl) for c, fl in cand if not fl[0]] + corr
 
     # known findings: witness replay + matching
     kf_hits = {}
     unmatched = []
     for c, fl in cand:
         k = findings.match(kf, pid, c, fl)
-        if k is not None and fl[0]:
+        # a finding the model predicts must keep flag A; one whose zone the model leaves out says so
+        if k is not None and (fl[0] or k.get("model_covers") is False):
             kf_hits.setdefault(k["id"], []).append(c)
         else:
             unmatched.append((c, fl))
@@ -229,7 +235,7 @@ def main():
                 c["stream_seed"] = ctx2.seed
                 if (not fl[1] or not fl[2]) and len(fl) >= 4 and fl[3]:
                     k = findings.match(kf, pid, c, fl)
-                    if k is None or not fl[0]:
+                    if k is None or not (fl[0] or k.get("model_covers") is False):
                         unmatched.append((c, fl))
         except Exception:  # noqa: BLE001
             notes.append("intensified search failed: " + traceback.format_exc()[-500:])
